@@ -321,6 +321,54 @@ def gen_chain_case(rng, name, length=None):
     return c
 
 
+def gen_ring_case(rng, name, missing=False):
+    """schemas that USE each other as a whole, in a ring (`USE FROM next;`, the last one from the first); one of them declares
+    `point`.  A client imports item-wise from a ring member: `point` (valid: found by following the ring, possibly renamed) or —
+    `missing` — a name no ring member has (the look-up comes back to the schema it started from: REF_NONEXISTENT, no crash)."""
+    k = rng.randint(2, 4)
+    names = rng.sample(G.SCHEMA_NAMES + NAME_POOL, k + 1)
+    ring = [G.Schema(nm) for nm in names[:k]]
+    for i, sc in enumerate(ring):
+        sc.ifaces.append(G.Iface("use", names[(i + 1) % k], None))
+        e = G.Entity(f"member{i}")
+        e.attrs.append(G.Attr(f"m{i}", ("S", "INTEGER")))
+        sc.decls.append(e)
+    owner = rng.randrange(k)
+    x = G.Entity("point")
+    x.attrs.append(G.Attr("px", ("S", "REAL")))
+    ring[owner].decls.append(x)
+    # a ring member other than the owner sees `point` through the ring
+    if k > 1:
+        j = rng.choice([i for i in range(k) if i != owner])
+        h = G.Entity(f"ringholder{j}")
+        h.attrs.append(G.Attr(f"rh{j}", ("N", "point")))
+        ring[j].decls.append(h)
+    client = G.Schema(names[k])
+    src = rng.randrange(k)
+    want = f"nosuch_o{rng.randint(0, 99)}" if missing else "point"
+    new = f"pt{rng.randint(0, 9)}" if (not missing and rng.random() < 0.4) else None
+    it = G.Item(want, new)
+    client.ifaces.append(G.Iface(rng.choice(["use", "ref"]), names[src], [it]))
+    if not missing:
+        e = G.Entity("holder")
+        e.attrs.append(G.Attr("at", ("N", new or "point")))
+        client.decls.append(e)
+    else:
+        e = G.Entity("holder")
+        e.attrs.append(G.Attr("at", ("S", "INTEGER")))
+        client.decls.append(e)
+    order = ring + [client]
+    rng.shuffle(order)
+    f = G.File(order)
+    if missing:
+        c = make_case(name, f, "undefined-import", [("REF_NONEXISTENT", [want, names[src]])], "reject",
+                      note="item looked up through a ring of whole-schema USE clauses " + " -> ".join(names[:k]))
+    else:
+        c = make_case(name, f, "valid", [], "accept", note="import through a ring of whole-schema USE clauses " + " -> ".join(names[:k]))
+    c.multi = True
+    return c
+
+
 # ------------------------------------------------------------------------------------------------ running
 def parse_stderr(err, table):
     """-> (diags [(code name, file, line, message)], other lines)"""
